@@ -21,15 +21,20 @@
    bit the code looks at: whether `_type_affinity is DateTime`.
 
    Outside this model (stated in harness/props/c13.py as well): Identity/Computed server
-   defaults, schema types with a type-bound CHECK (Boolean/Enum create_constraint=True; the
-   drop/add of those constraints in toimpl.alter_column), empty-string comments, batch mode.
+   defaults, empty-string comments, unnamed type-bound constraints, batch mode.
    No proofs in this file. *)
 From Coq Require Import List NArith Bool.
 Import ListNotations.
 
 Inductive dialect := Ddefault | Dsqlite | Dpostgresql | Dmysql | Dmariadb | Dmssql | Doracle.
 
-Record ty := mkTy { ty_id : N; ty_dt : bool (* _type_affinity is sqltypes.DateTime *) }.
+Record ty := mkTy {
+  ty_id : N;
+  ty_dt : bool;          (* _type_affinity is sqltypes.DateTime *)
+  ty_ck : option N       (* name of the type-bound CHECK constraint that toimpl's _count_constraint accepts for a
+                            column of this type on the dialect under test (Boolean / non-native Enum with
+                            create_constraint=True); SQLAlchemy's create rule is an oracle observed by the harness *)
+}.
 
 (* Python's three-valued arguments: False (= not given) / None / a value *)
 Inductive tri (A:Type) := TFalse | TNone | TSome (a:A).
@@ -73,7 +78,9 @@ Inductive stmt :=
 | MSSQLAlterType (t:ty)            (* ALTER TABLE t ALTER COLUMN c <type> *)
 | MSSQLDropDefault                 (* declare @const_name ... sys.default_constraints ... drop constraint *)
 | MSSQLAddDefault (d:N)            (* ALTER TABLE t ADD DEFAULT d FOR c *)
-| MSSQLSpRename (n:N).             (* EXEC sp_rename 't.c', n, 'COLUMN' *)
+| MSSQLSpRename (n:N)              (* EXEC sp_rename 't.c', n, 'COLUMN' *)
+| DropConstraint (k:N)             (* ALTER TABLE t DROP CONSTRAINT k      (type-bound CHECK of the existing type) *)
+| AddConstraint (k:N).             (* ALTER TABLE t ADD CONSTRAINT k CHECK (...)  (type-bound CHECK of the new type) *)
 
 (* exception classes *)
 Inductive err := CommandError | CompileError | NotImplementedErr | OtherErr.
@@ -250,8 +257,7 @@ Definition postgresql_alter_column (d:dialect) (req:request) (ex:existing) : out
     (match r_type req with Some t => exec d (PostgresqlColumnType t (r_using req)) | None => ret end) >>
     default_alter_column d (r_null req) (r_default req) (r_name req) None (r_comment req) (e_type ex).
 
-(* ------------------------------------------------------------------ dispatch (impl class by dialect name);
-   toimpl.alter_column adds nothing for types without type-bound constraints *)
+(* ------------------------------------------------------------------ dispatch (impl class by dialect name) *)
 Definition alter_column (d:dialect) (req:request) (ex:existing) : out :=
   match d with
   | Dmysql | Dmariadb => mysql_alter_column d req ex
@@ -261,7 +267,30 @@ Definition alter_column (d:dialect) (req:request) (ex:existing) : out :=
       default_alter_column d (r_null req) (r_default req) (r_name req) (r_type req) (r_comment req) (e_type ex)
   end.
 
-Definition plan := alter_column.
+(* ------------------------------------------------------------------ toimpl.alter_column:
+   drops the type-bound constraint of existing_type before, adds the one of type_ after *)
+Definition drop_constraint (d:dialect) (k:N) : out :=   (* impl.drop_constraint on a type-bound CHECK *)
+  match d with
+  | Dmysql | Dmariadb => ret            (* MySQLImpl.drop_constraint: `_is_type_bound(const)` -> return *)
+  | Dsqlite => ret                      (* SQLiteImpl.drop_constraint: raises only when _create_rule is None *)
+  | _ => ([DropConstraint k], None)     (* self._exec(schema.DropConstraint(const)) *)
+  end.
+Definition add_constraint (d:dialect) (k:N) : out :=
+  match d with
+  | Dsqlite => ret                      (* SQLiteImpl.add_constraint: util.warn("Skipping unsupported ALTER ...") *)
+  | _ => ([AddConstraint k], None)      (* self._exec(schema.AddConstraint(const)) *)
+  end.
+Definition ck_of (t:option ty) : option N := match t with Some t => ty_ck t | None => None end.
+
+Definition toimpl_alter_column (d:dialect) (req:request) (ex:existing) : out :=
+  (match e_type ex, r_type req with                      (* if existing_type and type_: *)
+   | Some et, Some _ => match ty_ck et with Some k => drop_constraint d k | None => ret end
+   | _, _ => ret
+   end) >>
+  alter_column d req ex >>
+  (match ck_of (r_type req) with Some k => add_constraint d k | None => ret end).   (* if type_: *)
+
+Definition plan := toimpl_alter_column.
 
 (* ------------------------------------------------------------------ meaning of the statements *)
 Record colstate := mkCol {
@@ -284,6 +313,8 @@ Definition sem (st:colstate) (s:stmt) : colstate :=
   | MSSQLAlterType t => mkCol (c_name st) t true (c_default st) (c_comment st) (c_autoinc st)
   | MSSQLDropDefault => mkCol (c_name st) (c_type st) (c_null st) None (c_comment st) (c_autoinc st)
   | MSSQLAddDefault v => mkCol (c_name st) (c_type st) (c_null st) (Some v) (c_comment st) (c_autoinc st)
+  (* table-level CHECK constraints: none of the six column attributes *)
+  | DropConstraint _ | AddConstraint _ => st
   end.
 
 Definition run (ss:list stmt) (st:colstate) : colstate := fold_left sem ss st.
